@@ -83,4 +83,13 @@ def priceToTick (price : Nat) : Option Int :=
   else if leX96 tick target then some (tick + offset)
   else some (tick - 1 + offset)
 
+/-- what the approximation must satisfy for the final correction loop to land on the right tick
+    (decidable; evaluated by the driver on every sampled price, exhaustively at all tick boundaries) -/
+def approxOK (price : Nat) : Bool :=
+  let tick := approxTick price
+  let target := price * q96
+  inRange tick &&
+  (!inRange (tick + 2) || decide (target < x96 (tick + 2))) &&
+  (leX96 (tick + 1) target || leX96 tick target || (inRange (tick - 1) && decide (x96 (tick - 1) ≤ target)))
+
 end BandVerif.Tick
